@@ -4,6 +4,7 @@ import (
 	"go/constant"
 	"go/token"
 	"go/types"
+	"regexp/syntax"
 
 	"golang.org/x/tools/go/ssa"
 )
@@ -178,6 +179,7 @@ func (g *cgraph) defineLoad(x *ssa.UnOp, key string) {
 	if g.a.loadOfCtorFieldGE1(x) {
 		g.le(zeroTerm, key, -1)
 	}
+	g.defineMatchIndex(x, key)
 	ia, ok := x.X.(*ssa.IndexAddr)
 	if !ok {
 		return
@@ -525,4 +527,149 @@ func (g *cgraph) substrIndexEnd(x *ssa.BinOp, key string) {
 			g.le(key, "len("+a.regKey(call.Call.Args[0])+")", 0)
 		}
 	}
+}
+
+// defineMatchIndex: x loads element 0 or 1 of the result of (*Regexp).FindStringIndex / FindIndex.
+// A non-nil result is [lo, hi] with 0 ≤ lo, lo + m ≤ hi, hi ≤ len(input), m being the least number
+// of characters any match of the (package-level, constant) pattern has.  The load itself panics on
+// a nil result, so the facts hold whenever the loaded value exists.  The result slice must not be
+// written by the function (it is only indexed for loads, measured, or compared with nil).
+func (g *cgraph) defineMatchIndex(x *ssa.UnOp, key string) {
+	ia, ok := x.X.(*ssa.IndexAddr)
+	if !ok {
+		return
+	}
+	call, ok := ia.X.(*ssa.Call)
+	if !ok {
+		return
+	}
+	sc := call.Call.StaticCallee()
+	if sc == nil || (sc.String() != "(*regexp.Regexp).FindStringIndex" && sc.String() != "(*regexp.Regexp).FindIndex") {
+		return
+	}
+	k, ok := constInt(ia.Index)
+	if !ok || (k != 0 && k != 1) {
+		return
+	}
+	for _, r := range *call.Referrers() {
+		switch y := r.(type) {
+		case *ssa.IndexAddr:
+			for _, r2 := range *y.Referrers() {
+				if u, ok := r2.(*ssa.UnOp); !ok || u.Op != token.MUL {
+					if _, dbg := r2.(*ssa.DebugRef); !dbg {
+						return
+					}
+				}
+			}
+		case *ssa.BinOp, *ssa.DebugRef:
+		case *ssa.Call:
+			if bi, ok := y.Call.Value.(*ssa.Builtin); !ok || bi.Name() != "len" {
+				return
+			}
+		default:
+			return
+		}
+	}
+	a := g.a
+	t0, t1 := "fi0("+a.regKey(call)+")", "fi1("+a.regKey(call)+")"
+	own := t0
+	if k == 1 {
+		own = t1
+	}
+	g.le(key, own, 0)
+	g.le(own, key, 0)
+	g.le(zeroTerm, t0, 0)
+	m := int64(0)
+	if n, ok := a.regexpMinLen(call.Call.Args[0]); ok {
+		m = n
+	}
+	g.le(t0, t1, -m)
+	g.defineLen(call.Call.Args[1], 1)
+	g.le(t1, "len("+a.regKey(call.Call.Args[1])+")", 0)
+}
+
+// regexpMinLen: least number of characters of a match of the package-level regexp the value is
+// loaded from (each character is at least one byte).
+func (a *NilAnalysis) regexpMinLen(recv ssa.Value) (int64, bool) {
+	u, ok := recv.(*ssa.UnOp)
+	if !ok || u.Op != token.MUL {
+		return 0, false
+	}
+	gl, ok := u.X.(*ssa.Global)
+	if !ok || gl.Pkg == nil {
+		return 0, false
+	}
+	init := gl.Pkg.Func("init")
+	if init == nil {
+		return 0, false
+	}
+	n, found := int64(0), 0
+	for _, b := range init.Blocks {
+		for _, ins := range b.Instrs {
+			st, ok := ins.(*ssa.Store)
+			if !ok || st.Addr != ssa.Value(gl) {
+				continue
+			}
+			found++
+			c, ok := st.Val.(*ssa.Call)
+			if !ok {
+				return 0, false
+			}
+			if sc := c.Call.StaticCallee(); sc == nil || sc.String() != "regexp.MustCompile" {
+				return 0, false
+			}
+			pat, ok := c.Call.Args[0].(*ssa.Const)
+			if !ok || pat.Value == nil {
+				return 0, false
+			}
+			re, err := syntax.Parse(constant.StringVal(pat.Value), syntax.Perl)
+			if err != nil {
+				return 0, false
+			}
+			n = reMinLen(re)
+		}
+	}
+	// the variable is assigned once, in init (R5.2 checks that nothing else writes package state)
+	for _, fn := range a.p.LibFns {
+		if FnName(fn) == "init" {
+			continue
+		}
+		for _, ef := range a.eff.Sum[fn].Effects {
+			if rootBase(ef.Root) == "G:"+globalName(gl) {
+				return 0, false
+			}
+		}
+	}
+	return n, found == 1
+}
+
+func reMinLen(re *syntax.Regexp) int64 {
+	switch re.Op {
+	case syntax.OpLiteral:
+		return int64(len(re.Rune))
+	case syntax.OpCharClass, syntax.OpAnyChar, syntax.OpAnyCharNotNL:
+		return 1
+	case syntax.OpConcat:
+		n := int64(0)
+		for _, s := range re.Sub {
+			n += reMinLen(s)
+		}
+		return n
+	case syntax.OpAlternate:
+		n := int64(-1)
+		for _, s := range re.Sub {
+			if m := reMinLen(s); n < 0 || m < n {
+				n = m
+			}
+		}
+		if n < 0 {
+			n = 0
+		}
+		return n
+	case syntax.OpPlus, syntax.OpCapture:
+		return reMinLen(re.Sub[0])
+	case syntax.OpRepeat:
+		return int64(re.Min) * reMinLen(re.Sub[0])
+	}
+	return 0
 }
